@@ -7,7 +7,8 @@
                                  KEXINIT                                           (send_kexinit)
      _send_deferred_packets    : take the queue, empty it, re-send in order        (flush)
      _recv_version             : own KEXINIT when the peer's version line arrives  (recv_version)
-     _process_kexinit          : "already in progress" error, ext-info / strict markers latched on
+     _process_kexinit          : "already in progress" error (an exchange object exists, or - since 9276b6d -
+                                 our NEWKEYS is out and the peer's has not arrived), ext-info / strict markers latched on
                                  the first exchange, simultaneous-KEXINIT handling (process_kexinit)
      send_newkeys              : session id fixed at the first exchange, six keys from
                                  Kex.compute_key, NEWKEYS under the old keys, new send keys, next
@@ -224,6 +225,7 @@ Definition install_recv (ks : keys) (s : st) :=
        (hist s) (asked s) (err s) (sn s).
 
 Definition is_nil {A} (l : list A) : bool := match l with [] => true | _ => false end.
+Definition is_some {A} (o : option A) : bool := match o with Some _ => true | None => false end.
 
 Section Rekey.
   Variable Hf : bytes -> bytes.        (* the hash of the negotiated kex method *)
@@ -248,7 +250,7 @@ Section Rekey.
      kex list contains the ext-info / strict-kex marker for our role. *)
   Definition process_kexinit (ext strictp : bool) (s : st) : st :=
     if negb (started s) then s
-    else if kex_active s then set_err (Some E_KEX_IN_PROGRESS) s
+    else if kex_active s || is_some (staged s) then set_err (Some E_KEX_IN_PROGRESS) s   (* self._kex or self._next_recv_encryption *)
     else
       let s1 := if is_nil (sid s) then set_markers (can_ext s || ext) (strict s || strictp) s else s in
       let n := sn s1 in
